@@ -43,7 +43,7 @@ _sched = _sm.config("C07") if "C07" in _sm.TEXT else None
 CONFIG["coq_dirs"] += _isc["coq_dirs"] + ["theories/Sched"]
 CONFIG["coq_targets"] += _isc["coq_targets"] + ["theories/Sched/Corr.vo", "theories/Sched/PropertiesC07s.vo"]
 CONFIG["properties_files"] += _isc["properties_files"] + ["theories/Sched/PropertiesC07s.v"]
-CONFIG["required_theorems"] += _isc["required_theorems"]
+CONFIG["required_theorems"] += _isc["required_theorems"] + (_sched["required_theorems"] if _sched else [])
 CONFIG["violation_kinds"] = ["C07:"]
 CONFIG["harnesses"] += _isc["harnesses"] + (_sched["harnesses"] if _sched else [])
 CONFIG["trusted_base"] += _isc["trusted_base"] + (_sched["trusted_base"] if _sched else [])
